@@ -266,6 +266,14 @@ func c15StructCase(cs *drv.Case) {
 			extra[fl()+fmt.Sprint(i)] = fl()
 		}
 	}
+	if r.Intn(40) == 0 {
+		// dozens of large keys and values in one struct: as many direct pieces as there are large strings
+		extra = map[string]string{}
+		for i := 0; i < 33+r.Intn(12); i++ {
+			extra[string(gen.Bytes(r, 4096+r.Intn(9)))+fmt.Sprint(i)] = string(gen.Bytes(r, 4096+r.Intn(9)))
+		}
+		cs.C.Obs("structs with more than 64 large strings", 1)
+	}
 	spare := []int{0, 1, 100}[r.Intn(3)]
 	isBase := r.Intn(2) == 0
 	var codec thrift.FastCodec
